@@ -4,6 +4,8 @@
 From Sophia.Common Require Import Prelude.
 From Sophia.C08 Require Import Regex Tokens Lang Incl Examples.
 From Sophia.gen Require Import LabelSrc.
+From Sophia.Common Require Import Term.
+From Sophia.C08 Require Import Utf8 Utf8Proofs.
 
 Check (rio_label_accepted : forall w, matchb rio_bnode_label w = true -> matchb bnode_id_regex w = true).
 Check (rio_label_is_bnode_id : forall w, matchb rio_bnode_label w = matchb bnode_id_regex w).
@@ -13,6 +15,25 @@ Check (varname_is_sparql : forall w, matchb sparql_varname w = matchb varname_re
 (* the matcher used to state them decides the regular language *)
 Check (matchb_spec : forall r w, matchb r w = true <-> langc r w).
 
+(* the byte -> text layer under every entry point ("given any byte sequence"): the strict decoder accepts exactly the
+   encodings of scalar-value strings; decoding splits on character boundaries and fails inside a character *)
+Check (utf8_dec_utf8 : forall s, scalar_str s = true -> utf8_dec (utf8 s) = Some s).
+Check (utf8_dec_sound : forall b s, utf8_dec b = Some s -> utf8 s = b /\ scalar_str s = true).
+Check (utf8_valid_iff : forall b, utf8_valid b = true <-> exists s, scalar_str s = true /\ utf8 s = b).
+Check (utf8_injective : forall s t, scalar_str s = true -> scalar_str t = true -> utf8 s = utf8 t -> s = t).
+Check (utf8_dec_app : forall s r, scalar_str s = true -> utf8_dec (utf8 s ++ r) = option_map (app s) (utf8_dec r)).
+Check (utf8_dec_starts_inside : forall x r, cont x = true -> utf8_dec (x :: r) = None).
+Check (utf8_dec_after_first_byte : forall c r, scalar c = true -> 128 <= c -> utf8_dec (tl (utf8_1 c) ++ r) = None).
+Check (boundary_after_prefix : forall s t, scalar_str s = true -> scalar_str t = true ->
+         is_boundary (utf8 s ++ utf8 t) (length (utf8 s)) = true).
+(* the JSON-LD parser's bytes entry point (read, String::from_utf8, parse_str) *)
+Check (jsonld_bytes_error_iff : forall b, jsonld_parse_bytes b = Utf8Error <-> utf8_valid b = false).
+Check (jsonld_bytes_text : forall s, scalar_str s = true -> jsonld_parse_bytes (utf8 s) = Text s).
+(* the checker the harness cases use *)
+Check (utf8_ok_complete : forall s, scalar_str s = true ->
+         utf8_ok (utf8 s) true s None = true /\ utf8_ok (utf8 s) true s (Some false) = true).
+Check (utf8_ok_sound : forall b cps j, utf8_ok b true cps j = true -> utf8 cps = b /\ scalar_str cps = true /\ j <> Some true).
+
 Print Assumptions rio_label_accepted.
 Print Assumptions rio_label_is_bnode_id.
 Print Assumptions bnode_id_within_w3c.
@@ -21,3 +42,18 @@ Print Assumptions varname_is_sparql.
 Print Assumptions matchb_spec.
 Print Assumptions w3c_label_strictly_larger.
 Print Assumptions labels_nonvacuous.
+Print Assumptions utf8_dec_utf8.
+Print Assumptions utf8_dec_sound.
+Print Assumptions utf8_valid_iff.
+Print Assumptions utf8_injective.
+Print Assumptions utf8_dec_app.
+Print Assumptions utf8_dec_starts_inside.
+Print Assumptions utf8_dec_after_first_byte.
+Print Assumptions boundary_after_prefix.
+Print Assumptions jsonld_bytes_error_iff.
+Print Assumptions jsonld_bytes_text.
+Print Assumptions utf8_ok_complete.
+Print Assumptions utf8_ok_sound.
+Print Assumptions lowercase_changes_length.
+Print Assumptions shifted_offset_not_boundary.
+Print Assumptions utf8_examples.
